@@ -830,8 +830,12 @@ def make_app(fn: str, args, kw=None) -> T:
     kw = dict(kw or {})
     if fn in ("numpy.square",) and len(args) == 1:
         return mul(args[0], args[0])
-    if fn in ("numpy.sqrt", "math.sqrt") and len(args) == 1:
+    if fn in ("numpy.sqrt", "math.sqrt", "sqrt") and len(args) == 1:
         return sqrt(args[0])
+    if fn == "truncdiv" and len(args) == 2:
+        return to_int(div(args[0], args[1]))
+    if fn == "int" and len(args) == 1:
+        return to_int(args[0])
     if fn in ("numpy.transpose",) and len(args) == 1 and not kw:
         return transpose(args[0])
     if fn in ("numpy.dot", "numpy.matmul") and len(args) == 2:
